@@ -604,12 +604,25 @@ class Interp:
                 if a[2] == Poly.const(1):
                     ext = a[1] - a[0]
                 return ext, (lambda i, a0=a[0], st=a[2]: Num(a0 + st * i)), ("range", a[0], a[1], a[2])
+        if isinstance(it, Term) and it.op == "enumerate" and isinstance(it.args[0], Term) and it.args[0].op == "gslice":
+            gs = it.args[0]
+            start = it.args[1] if len(it.args) > 1 else None
+            if start is None or vkey(start) != vkey(gs.args[1]):
+                return None
+            inner = self.iter_desc(gs.args[0])
+            if inner is None:
+                return None
+            ext, fn, info = inner
+            lo_, hi_ = gs.kw["band"].items
+            return ext, (lambda i: TupleV([Num(i), fn(i)])), ("band", lo_.p if isinstance(lo_, Num) else None, hi_.p if isinstance(hi_, Num) else None)
         if isinstance(it, Term) and it.op == "enumerate":
             inner = self.iter_desc(it.args[0])
             if inner is None:
                 return None
             ext, fn, info = inner
-            start = it.args[1].p if len(it.args) > 1 and isinstance(it.args[1], Num) else Poly.const(0)
+            if len(it.args) > 1 and not isinstance(it.args[1], Num):
+                return None
+            start = it.args[1].p if len(it.args) > 1 else Poly.const(0)
             return ext, (lambda i: TupleV([Num(start + i), fn(i)])), ("enumerate", info)
         if isinstance(it, Term) and it.op == "zip":
             inners = [self.iter_desc(a) for a in it.args]
@@ -759,12 +772,22 @@ class Interp:
                 cc.env[n] = Num(Poly.atom(a))
         self.frames.append(fr)
         self.assign(target, fn(Poly.atom(idx)), cc, node)
+        nband = 0
+        if info and info[0] == "band":
+            # a window of the sequence scanned with its own offset: the full loop under the band condition
+            if info[1] is not None:
+                self.frames.append(Frame("guard", cond=CondV("cmp", ">=", Poly.atom(idx), info[1])))
+                nband += 1
+            if info[2] is not None:
+                self.frames.append(Frame("guard", cond=CondV("cmp", "<", Poly.atom(idx), info[2])))
+                nband += 1
         try:
             self.exec_block(body, cc)
         except _BranchExit:
             pass
         finally:
-            self.frames.pop()
+            for _ in range(nband + 1):
+                self.frames.pop()
         # summarise accumulators
         mapping = {}
         after = {}
